@@ -535,6 +535,13 @@ func c11Units(tier string) []Unit {
 		invokes: []*uFunc{iGs, iG, iB}}, 5, explore.Budget{Provides: 3, Invokes: 2, Rejected: 0})
 	add("members-after-a-mid-list-error", h.Config{}, nil, prefixChild, alpha{scopes: []int{0, 1}, ctors: []*uFunc{pMBem, fG1},
 		invokes: []*uFunc{iS1, iS2, iB, iGs, iG}}, 5, explore.Budget{Provides: 2, Invokes: 3, Rejected: 0})
+	// a hard consumer whose build fails half way (one feeder ran, another
+	// failed): the members of the feeder that ran stay, for the soft consumers
+	// that come next and for the retry
+	for _, beh := range []u.Beh{u.BehErr, u.BehPanic} {
+		add(fmt.Sprintf("members-of-a-partly-failed-hard-build/%v", beh), h.Config{Recover: beh == u.BehPanic}, map[string][]u.Beh{"fG1e": {beh, u.BehOK}}, prefixChild,
+			alpha{scopes: []int{0, 1}, ctors: []*uFunc{pMB, fG1e}, invokes: []*uFunc{iG, iGs, iS1}}, 5, explore.Budget{Provides: 2, Invokes: 3, Rejected: 0})
+	}
 	add("two-groups-scoped", h.Config{}, nil, prefixChild, alpha{scopes: []int{0, 1}, ctors: []*uFunc{pMB, pMC, fH}, export: true,
 		invokes: []*uFunc{iSH, iS1, iGH, iC}}, d, b)
 	if !q {
